@@ -230,7 +230,7 @@ def run_study(args):
             out_dir = os.path.abspath("./")
         else:
             # We just take the value from the environment.
-            out_dir = os.path.abspath(out_dir.value)
+            out_dir = os.path.abspath(str(out_dir.value))
 
         out_name = "{}_{}".format(
             spec.name.replace(" ", "_"),
